@@ -4,6 +4,9 @@ import Ptn.C06.Structure
 import Ptn.C06.Value
 import Ptn.C06.Demo
 import Ptn.C06.Gauge
+import Ptn.C06.SiteCanon
+import Ptn.C06.SiteNorm
+import Ptn.C03.Props
 import Ptn.C17.Examples
 /-! Property theorems for C06, part 2 (Mathlib): the combinatorial theorems are in `Core.lean`
 (core Lean only, same namespace); here the linear-algebra consequences. -/
@@ -322,5 +325,130 @@ example : ∃ dir : Rec, CanonAt exTree dir 7 ∧ Sound (fun (A : Option Nat) m 
   · simp [Ptn.C03.applyOp]
 
 end gauge
+
+
+/-! ### From the gauge record to `Kids.Canon` at every site update (value level, builder B45)
+
+The events of a time step are run on a VALUED network (`Ptn.C03.VNet`: per node its legs and its tensor as a function
+of index assignments, bonds, any commutative semiring): `VStep` / `VRun` (`SiteCanon.lean`) - a centre move is one
+`Ptn.C03.IsoStep` (QR contract: factorisation, `Q` an isometry in index form toward the fresh bond, one dimension
+for the fresh bond - hypotheses per call), a site update replaces the tensor of the site by ANY tensor on the same
+legs, a link update is the split of `a` toward `b` followed by the replacement of the tensor of `b` (which has
+absorbed the evolved link tensor) by any tensor on its legs.  No canonical-form hypothesis on any intermediate
+state: only the initial network is assumed to satisfy its record. -/
+section siteCanon
+open Ptn.Ein Ptn.C17 Ptn.C17.RTree Ptn.C05.Disc Ptn.C06.Gauge Ptn.C03
+
+/-- **At every site update of a time step the doubled tree around the update site is canonical in index form.**
+Every well-formed tree `t`, each scheme (the two-site events have no value-level step, so the statement is about
+the one-site schemes), `k` time steps, `dim` any dimensions, any commutative semiring and conjugation.  Start: a
+well-formed valued network `N0` containing the nodes of `t` whose bonds have one dimension, with a record `dir`
+canonical at the first node `s` of the sweep and true of `N0` (`GaugeInv`: every recorded node is an isometry in
+index form toward the bond to the recorded neighbour - what `canonical_form_isometric_tree` of C03 proves after
+the constructor).  Then for EVERY site-update event `site v` of the `k` steps and every value-level run `N` of the
+events before it: `N` is well-formed with the nodes of `N0`; the tree `r` = `t` re-rooted at `v` exists; there are
+bond ends `up`, `dn` such that every edge of `r` satisfies `EdgeOK` (the bond exists in `N`, has one dimension, the
+child's tensor is an isometry toward it); the doubled tree around `v` satisfies `Kids.Canon` and `Centre.Canon`,
+its labels are pairwise distinct, its centre legs are the legs of `v`; and the norm network of `N` along `r` has
+the value of the tensor of `v` alone. -/
+theorem tdvp_update_site_kids_canon {R : Type} [CommSemiring R] (dim : Nat → Nat) (cj : R → R)
+    (t : RTree) (hwf : t.WF) (sch : Scheme) (hdef : sch.Defined t) :
+    ∃ u s evs, updatePath t = some u ∧ u.head? = some s ∧ sch.events t = some evs ∧
+      ∀ (dir : Rec) (N0 : VNet R), CanonAt t dir s → N0.WF → BondDims dim N0 → (∀ n ∈ ids t, n ∈ N0.ids) →
+        GaugeInv dim cj N0 dir →
+      ∀ (k : Nat) (p q : List DEv) (v : Nat) (N : VNet R),
+        (List.replicate k evs).flatten = p ++ DEv.site v :: q → VRun dim cj N0 p N →
+        N.WF ∧ N.ids = N0.ids ∧ v ∈ ids t ∧
+        ∃ r : RTree, reroot v [] t = some r ∧ r.rid = v ∧ (ids r).Perm (ids t) ∧
+          ∃ up dn : Nat → Nat, (∀ e ∈ edges r, EdgeOK dim cj N up dn e.1 e.2) ∧
+            (kidsOf cj N up dn r.kids).Canon (ddim dim) ∧ (centreOf cj N up dn r).Canon (ddim dim) ∧
+            (centreOf cj N up dn r).labels.Nodup ∧
+            ((centreOf cj N up dn r).phys ++ (kidsOf cj N up dn r.kids).pairs).Perm ((N.legs v).map dbl) ∧
+            ∀ σ, netValue (ddim dim) (centreOf cj N up dn r).normBinds ((ids t).flatMap (nodeLeaves cj N)) σ =
+              netValue (ddim dim) ((N.legs v).map dbl) [ketT (N.tens v), braT cj (N.tens v)] σ := by
+  obtain ⟨u, s, evs, hu, hs, _, hev, hw⟩ := scheme_walk t hwf sch hdef
+  refine ⟨u, s, evs, hu, hs, hev, ?_⟩
+  intro dir N0 hc hwf0 hbd hids hinv k p q v N hsplit hr
+  obtain ⟨hpre, hcan, hI⟩ := net_canonical_at_event (st := ⟨s, dir⟩) (ids0 := N0.ids) hwf
+    (walk_replicate hw k) hc ⟨hwf0, hbd, rfl, hinv⟩ hsplit hr
+  simp only [gpre, pre, Bool.and_eq_true, beq_iff_eq, List.contains_iff_mem] at hpre
+  obtain ⟨hcv, hv⟩ := hpre
+  have hv' : v ∈ ids t := by simpa using hv
+  rw [hcv] at hcan
+  have hI' : VInv dim cj N.ids N (grun ⟨s, dir⟩ p).dir := ⟨hI.wf, hI.bd, rfl, hI.inv⟩
+  obtain ⟨r, hr1, hr2, hr3, up, dn, h1, h2, h3, h4, h5, h6⟩ :=
+    site_canon_of_record dim cj hwf hv' hcan hI' (fun n hn => hI.ids ▸ hids n hn)
+  exact ⟨hI.wf, hI.ids, hv', r, hr1, hr2, hr3, up, dn, h1, h2, h3, h4, h5, h6⟩
+
+open Matrix NormedSpace in
+/-- **Every one-site update of a TDVP time step conserves the norm** - no canonical-form hypothesis other than the
+per-QR contracts of the run (`VRun`: each split's `Q` is an isometry toward the fresh bond) and the truth of the
+record of the INITIAL network.  Over the complex numbers with conjugation `star`: before every event `site v` the
+doubled tree `kidsOf star N up dn r.kids` around `v` (`r` = `t` re-rooted at `v`) is built from the current network
+`N`, the embedding `E = siteEmbedding … = envMatrix ⊗ 1_P` is BUILT from it (`P`: the open legs of `v`), and for every
+Hermitian `H` the update `φ ↦ exp(-i τ EᴴHE) φ` conserves `|Eφ|²`
+(`tdvp_update_site_kids_canon` + `subOf_isConj` + `one_site_update_conserves_norm_of_canonical`). -/
+theorem tdvp_one_site_update_conserves_norm (dim : Nat → Nat) (t : RTree) (hwf : t.WF) (sch : Scheme)
+    (hdef : sch.Defined t) :
+    ∃ u s evs, updatePath t = some u ∧ u.head? = some s ∧ sch.events t = some evs ∧
+      ∀ (dir : Rec) (N0 : VNet ℂ), CanonAt t dir s → N0.WF → BondDims dim N0 → (∀ n ∈ ids t, n ∈ N0.ids) →
+        GaugeInv dim (star : ℂ → ℂ) N0 dir →
+      ∀ (k : Nat) (p q : List DEv) (v : Nat) (N : VNet ℂ),
+        (List.replicate k evs).flatten = p ++ DEv.site v :: q → VRun dim (star : ℂ → ℂ) N0 p N →
+        ∃ r : RTree, reroot v [] t = some r ∧ r.rid = v ∧
+          ∃ up dn : Nat → Nat, (∀ e ∈ edges r, EdgeOK dim (star : ℂ → ℂ) N up dn e.1 e.2) ∧
+            ∀ (P : Type) [Fintype P] [DecidableEq P]
+              (H : Matrix (Idx (ddim dim) (kidsOf (star : ℂ → ℂ) N up dn r.kids).physAll × P)
+                (Idx (ddim dim) (kidsOf (star : ℂ → ℂ) N up dn r.kids).physAll × P) ℂ),
+              H.conjTranspose = H → ∀ (τ : ℝ)
+              (φ : Idx (ddim dim) (kidsOf (star : ℂ → ℂ) N up dn r.kids).ups × P → ℂ),
+              let E := siteEmbedding (ddim dim) (kidsOf (star : ℂ → ℂ) N up dn r.kids) P
+              star (E.mulVec ((exp ((-Complex.I * (τ : ℂ)) • (E.conjTranspose * H * E))).mulVec φ)) ⬝ᵥ
+                  (E.mulVec ((exp ((-Complex.I * (τ : ℂ)) • (E.conjTranspose * H * E))).mulVec φ))
+                = star (E.mulVec φ) ⬝ᵥ (E.mulVec φ) := by
+  obtain ⟨u, s, evs, hu, hs, hev, hall⟩ := tdvp_update_site_kids_canon dim (star : ℂ → ℂ) t hwf sch hdef
+  refine ⟨u, s, evs, hu, hs, hev, ?_⟩
+  intro dir N0 hc hwf0 hbd hids hinv k p q v N hsplit hr
+  obtain ⟨_, _, _, r, hr1, hr2, _, up, dn, hE, hK, _, hL, _, _⟩ :=
+    hall dir N0 hc hwf0 hbd hids hinv k p q v N hsplit hr
+  refine ⟨r, hr1, hr2, up, dn, hE, ?_⟩
+  intro P _ _ H hH τ φ
+  have hnd : (kidsOf (star : ℂ → ℂ) N up dn r.kids).labels.Nodup := by
+    have : (centreOf (star : ℂ → ℂ) N up dn r).labels =
+        Expr.pairLegs (centreOf (star : ℂ → ℂ) N up dn r).phys ++
+          (kidsOf (star : ℂ → ℂ) N up dn r.kids).labels := rfl
+    rw [this] at hL
+    exact (List.nodup_append.1 hL).2.1
+  exact one_site_update_conserves_norm_of_canonical (ddim dim) dswap dswap_injective (ddim_dswap dim)
+    _ hK hnd ((subOf_isConj N up dn).2 r.kids) P H hH τ φ
+
+/-! Non-vacuity of the hypotheses of `tdvp_update_site_kids_canon`: the tree `0 → 1` (the sweep starts at node 1),
+the integer network `Ptn.C03.isoNet'` (node 0 is the `Q` factor of a QR move toward node 1), the record `0 > 1`,
+`1 > -`; the first site update `site 1` of a first-order step (the other events of the step: `link 1 0`, `site 0`,
+`hop 0 1`, `init 1`), and a value-level site update on this network. -/
+example :
+    let t : RTree := .node 0 [.node 1 []]
+    let dir : Rec := applyOps (fun _ => none) [⟨0, 1⟩]
+    t.WF ∧ Scheme.Defined t .first ∧ updatePath t = some [1, 0] ∧
+    Scheme.events t .first = some [.site 1, .link 1 0, .site 0, .hop 0 1, .init 1] ∧
+    CanonAt t dir 1 ∧ isoNet'.WF ∧ BondDims demoDim isoNet' ∧ (∀ n ∈ ids t, n ∈ isoNet'.ids) ∧
+    GaugeInv demoDim id isoNet' dir ∧
+    (List.replicate 1 [DEv.site 1, .link 1 0, .site 0, .hop 0 1, .init 1]).flatten =
+      [] ++ DEv.site 1 :: [.link 1 0, .site 0, .hop 0 1, .init 1] ∧
+    VRun demoDim id isoNet' [] isoNet' ∧
+    VRun demoDim id isoNet' [.site 1] (siteWrite isoNet' 1 (fun σ => (σ 3 : Int) + 7)) := by
+  obtain ⟨h1, h2, _, h4, _⟩ := run_isometric demoDim id isoNet_wf isoNet_run (fun _ => none)
+    (gaugeInv_none _ _ _)
+  have hbd : BondDims demoDim isoNet := by
+    intro p hp
+    simp only [isoNet, List.mem_cons, List.not_mem_nil, or_false] at hp
+    subst hp; rfl
+  refine ⟨by decide, trivial, by decide, by decide, (canonAtB_iff _ _ _).1 (by decide), h2, h4 hbd, by decide,
+    h1, rfl, VRun.nil _, VRun.cons (VStep.site _ 1 _ ?_) (VRun.nil _)⟩
+  intro σ τ h
+  have h3 := h 3 (by simp [isoNet', gaugeStep, isoNet])
+  simp [h3]
+
+end siteCanon
 
 end Ptn.C06
